@@ -22,8 +22,9 @@
     VERIF_FRESH((mod)->code, (mod)->code_size))
 
 /* spec: instruction length from the table row, as an expression (slots beyond operand_count are NONE by C11.table.k) */
-#define OPSZ_M(t) ((t) == OPERAND_U8 ? 1u : (t) == OPERAND_U16 ? 2u : ((t) == OPERAND_U32 || (t) == OPERAND_I32) ? 4u : \
-                   ((t) == OPERAND_I64 || (t) == OPERAND_F64) ? 8u : 0u)
+/* operand size by operand type as ONE table lookup (OperandType enumerators 0..6; C11.table.k shows every slot is one of them) */
+static const uint8_t spec_opsize_tab[8] = { 0, 1, 2, 4, 4, 8, 8, 0 };
+#define OPSZ_M(t) ((uint32_t)spec_opsize_tab[(unsigned)(t) & 7u])
 #define ROW_M(k) (instruction_table[(uint8_t)(k)])
 #define SPEC_LEN_M(k) (1u + OPSZ_M(ROW_M(k).operands[0]) + OPSZ_M(ROW_M(k).operands[1]) + OPSZ_M(ROW_M(k).operands[2]) + OPSZ_M(ROW_M(k).operands[3]))
 
@@ -56,12 +57,25 @@
 #define IOK_STR(mod, f, p) IOKP_STR(FCODE(mod, f), FEND(mod, f), p, (mod)->string_count)
 #define IOK_EXTERN(mod, f, p) IOKP_EXTERN(FCODE(mod, f), FEND(mod, f), p, (mod)->import_count)
 #define IOK_LOCAL(mod, f, p) IOKP_LOCAL(FCODE(mod, f), FEND(mod, f), p, (mod)->functions[f].local_count)
+/* the same parts over an explicit code pointer / length (used where the function's own locals or ghost-bound
+ * copies of them are available: far smaller expressions than the FCODE(mod,f) forms) */
+#define IOKX_DECODE(c, end, p, mod, f) IOKP_DECODE(c, end, p)
+#define IOKX_JMP(c, end, p, mod, f) IOKP_JMP(c, end, p)
+#define IOKX_MATCH(c, end, p, mod, f) IOKP_MATCH(c, end, p)
+#define IOKX_CALL(c, end, p, mod, f) IOKP_CALL(c, end, p, (mod)->function_count)
+#define IOKX_STR(c, end, p, mod, f) IOKP_STR(c, end, p, (mod)->string_count)
+#define IOKX_EXTERN(c, end, p, mod, f) IOKP_EXTERN(c, end, p, (mod)->import_count)
+#define IOKX_LOCAL(c, end, p, mod, f) IOKP_LOCAL(c, end, p, (mod)->functions[f].local_count)
 /* INSTR_OK = conjunction of the seven parts; each part is proved by its own obligation
  * (-DVERIF_IOK=<part>) because the conjunction makes symbolic execution of the contract itself too slow */
 #ifndef VERIF_IOK
 #define INSTR_OK(mod, f, p) 1
+#define INSTR_OKX(c, end, p, mod, f) 1
 #else
 #define INSTR_OK(mod, f, p) VERIF_IOK(mod, f, p)
+#define VERIF_CAT_(a, b) a##b
+#define VERIF_CAT(a, b) VERIF_CAT_(a, b)
+#define INSTR_OKX(c, end, p, mod, f) VERIF_CAT(IOKX_, VERIF_IOKN)(c, end, p, mod, f)
 #endif
 
 #endif
